@@ -1,0 +1,5 @@
+//go:build !verif
+
+package eval
+
+func verifTrace(*Evaler, *Frame, string) {}
